@@ -294,6 +294,8 @@ def mk_pexe(c, name, withpos):
             return None
         if name in ("call", "bind") and "f" not in cx.funcs:
             return None
+        if name in ("app", "rets", "print", "tab") and cx.vars.get("B", ("N",))[0] != "s":
+            return None          # these texts need a non-null string in B
         pre, pexp = reread_ops(m, c)
         ops = list(pre)
         if m.exe is not None:
@@ -356,6 +358,8 @@ def mk_exec(two, c):
         if cx is None or m.ctx[owner] is None and not two:
             return None
         if "A" not in cx.vars or (name in ("call", "bind") and "f" not in cx.funcs):
+            return None
+        if name in ("app", "rets", "print", "tab") and cx.vars.get("B", ("N",))[0] != "s":
             return None
         if two and (target == owner or m.clone_at < m.exe_at):
             return None      # execute2 needs a clone of the parsing context taken after the parse
